@@ -19,3 +19,54 @@ package internal
 //@   ensures O3: err != nil ==> !b && httpCode(err) == -1 && !hostPath(err)
 //@ func internal.FormatOverwrite(overwrite) (s)
 //@   ensures F1: s == (overwrite ? "T" : "F")
+//@ func internal.verifDepthRoundTrip(d) (r, err)
+//@   requires R1: d == DepthZero || d == DepthOne || d == DepthInfinity
+//@   ensures RT: err == nil && r == d
+//@ func internal.verifOverwriteRoundTrip(b) (r, err)
+//@   ensures RT: err == nil && r == b
+
+//@ -- C16: status line "HTTP/1.1 <code> <reason>" (RFC 4918 section 14.28)
+//@ spec sp1(s string) int = indexOf(s, " ")
+//@ spec rest1(s string) string = substr(s, sp1(s) + 1, len(s))
+//@ spec sp2(s string) int = indexOf(rest1(s), " ")
+//@ spec field1(s string) string = substr(rest1(s), 0, sp2(s))
+//@ spec field2(s string) string = substr(rest1(s), sp2(s) + 1, len(s))
+//@ func internal.(*Status).MarshalText(s) (b, err)
+//@   requires R1: s != nil
+//@   ensures M1: err == nil && string(b) == "HTTP/1.1 " + itoa(s.Code) + " " + (s.Text == "" ? statusText(s.Code) : s.Text)
+//@   -- itoa is exact for non-negative codes only; the statement is about three-digit codes
+//@   requires R2: s.Code >= 0
+//@ func internal.(*Status).UnmarshalText(s, b) (err)
+//@   requires R1: s != nil
+//@   assigns H_internal_Status_Code, H_internal_Status_Text
+//@   ensures U1: err == nil <==> (len(b) == 0 || (sp1(string(b)) >= 0 && sp2(string(b)) >= 0 && atoiOk(field1(string(b)))))
+//@   ensures U2: err == nil && len(b) > 0 ==> s.Code == atoiVal(field1(string(b))) && s.Text == field2(string(b))
+//@   ensures U3: err != nil || len(b) == 0 ==> s.Code == old(s.Code) && s.Text == old(s.Text)
+//@   ensures U4: forall r *Status :: r != s ==> r.Code == old(r.Code) && r.Text == old(r.Text)
+//@ func internal.verifStatusRoundTrip(code, text) (out, err)
+//@   requires R1: 100 <= code && code <= 999
+//@   ensures RT: err == nil && out.Code == code && out.Text == (text == "" ? statusText(code) : text)
+
+//@ -- C16: entity tags are Go-quoted strings on the wire (T-quote)
+//@ func internal.(ETag).String(etag) (s)
+//@   ensures S1: s == quote(string(etag))
+//@ func internal.(ETag).MarshalText(etag) (b, err)
+//@   ensures M1: err == nil && string(b) == quote(string(etag))
+//@ func internal.(*ETag).UnmarshalText(etag, b) (err)
+//@   requires R1: etag != nil
+//@   assigns HC_internal_ETag
+//@   ensures U1: err == nil <==> unquoteOk(string(b))
+//@   ensures U2: err == nil ==> string(*etag) == unquoteVal(string(b))
+//@   ensures U3: err != nil ==> *etag == old(*etag) && httpCode(err) == -1 && !hostPath(err)
+//@   ensures U4: forall r *ETag :: r != etag ==> *r == old(*r)
+//@ func internal.verifETagXMLRoundTrip(s) (r, err)
+//@   ensures RT: err == nil && r == s
+
+//@ -- C16: HTTP dates (RFC 7231 IMF-fixdate), any zone in, UTC to the second out (T-time)
+//@ func internal.verifTimeRoundTrip(t) (r, err)
+//@   ensures RT: err == nil && r.ns == truncSec(t.ns)
+
+//@ -- C16: hrefs (T-url)
+//@ func internal.verifHrefRoundTrip(p) (r, err)
+//@   requires R1: hasPrefix(p, "/") && !hasPrefix(p, "//")
+//@   ensures RT: err == nil && r == p
